@@ -353,6 +353,59 @@ pub fn directed_texts(set: &str) -> Vec<(String, String)> {
                 v.push((format!("text-{mn}"), format!("stel s = \"abc\"; {make} s[0] = \"x\"; print(s); print({alias}); [s, {alias}]")));
             }
         }
+        "effects-order" => {
+            // every composite construct with operands that announce their evaluation: the order of the
+            // printed lines and the point at which an error strikes are part of what a program means
+            let pre = "stel spoor_n = 0; functie spoor(k) { spoor_n = spoor_n * 10 + k; print(\"op {}\", k); k }; \
+                       functie waar(k) { print(\"op {}\", k); ja }; functie onwaar(k) { print(\"op {}\", k); nee }; stel a = [10, 20, 30]; stel x = 5;";
+            let exprs = [
+                "spoor(1) + spoor(2) * spoor(3)", "spoor(1) - (spoor(2) - spoor(3))", "spoor(3) / spoor(1) % spoor(2)",
+                "spoor(1) < spoor(2)", "spoor(2) == spoor(2)", "spoor(1) != spoor(2)", "spoor(2) >= spoor(1)",
+                "waar(1) && onwaar(2)", "onwaar(1) && waar(2)", "waar(1) || onwaar(2)", "onwaar(1) || waar(2)",
+                "onwaar(1) && waar(2) || waar(3)", "!waar(1) || !onwaar(2)",
+                "a[spoor(1)]", "a[spoor(1) - spoor(1)]", "[spoor(1), spoor(2), spoor(3)]", "[spoor(1), [spoor(2)], spoor(3)]",
+                "a[spoor(0)] = spoor(2)", "a[spoor(1)] = a[spoor(2)]", "x = spoor(4)", "x += spoor(4)", "x = x + spoor(1) * spoor(2)",
+                "lengte([spoor(1), spoor(2)])", "string(spoor(1)) == string(spoor(1))", "type(spoor(1) + spoor(2))",
+                "print(\"{} {}\", spoor(1), spoor(2))", "als waar(1) { spoor(2) } anders { spoor(3) }", "als onwaar(1) { spoor(2) } anders als waar(3) { spoor(4) }",
+                "-spoor(1) + spoor(2)", "spoor(1) + -spoor(2)",
+                // an error in the middle: everything before it has happened, nothing after it
+                "spoor(1) + waar(2) + spoor(3)", "[spoor(1), spoor(2) / 0, spoor(3)]", "a[spoor(7)] = spoor(2)", "a[spoor(1)] = spoor(2) + ja",
+                "print(\"{} {}\", spoor(1), 1 / 0, spoor(3))", "spoor(1) / (spoor(2) - spoor(2))", "int(\"x\") + spoor(1)", "spoor(1) + int(\"x\")",
+            ];
+            for (k, e) in exprs.iter().enumerate() {
+                v.push((format!("expr-{k}"), format!("{pre} stel r = {e}; print(\"r\"); [r, spoor_n, a, x]")));
+                v.push((format!("stmt-{k}"), format!("{pre} {e}; [spoor_n, a, x]")));
+                v.push((format!("fn-{k}"), format!("{pre} functie f(p, q) {{ stel l = {e}; [l, p, q] }}; [f(1, 2), spoor_n]")));
+            }
+            // what a program is worth when its last statement is not an expression
+            for (k, last) in ["stel z = 3", "zolang nee { 1 }", "{ }", "{ 4 }", "als nee { 1 }", "functie g() { 1 }", "x = 9", "x += 1", "stel z = als ja { 6 }"].iter().enumerate() {
+                v.push((format!("last-{k}"), format!("stel x = 5; print(\"voor\"); {last}")));
+            }
+        }
+        "slots" => {
+            // many variables in nested blocks of every kind, inside and outside functions: every variable has a value
+            // of its own that is checked after the inner blocks have come and gone
+            let bodies = [
+                "stel a = 1; als p > 0 { stel b = 2; zolang b < 4 { stel c = b * 10; b += 1; { stel d = c + 1; a += d } }; stel e = 5; a += e }; stel g = 7; [a, g, p]",
+                "stel a = 1; { stel b = 2; { stel c = 3; { stel d = 4; a = a + b + c + d } }; stel e = 50; a += e }; { stel f = 600; a += f }; stel g = 7000; [a, g]",
+                "stel a = 1; als p > 0 { stel b = 10 } anders { stel c = 20; a += c }; stel d = 300; als p > 0 { stel e = 4000; a += e + d } anders { stel f = 50000; a += f }; [a, d]",
+                "stel t = 0; stel i = 0; zolang i < 3 { stel v = i * 2; { stel w = v + 1; t += w }; stel u = 100; t += u; i += 1 }; stel na = 9; [t, i, na]",
+                "stel x = 1; { stel x = 10; x += 5; print(x); { stel x = 100; x += 1; print(x) }; print(x) }; x += 2; x",
+                "stel x = 1; als p > 0 { stel x = 2; als p > 0 { stel x = 3; print(x) }; print(x) }; stel y = x + 10; [x, y]",
+                "stel s = 0; stel i = 0; zolang i < 2 { stel j = 0; zolang j < 2 { stel k = i * 10 + j; s += k; j += 1 }; stel m = 1000; s += m; i += 1 }; [s, i]",
+                "stel a = 1; stel b = 2; functie binnen(q) { stel a = q * 2; stel c = a + 1; { stel d = c + 1; a += d }; [a, c, q] }; stel r = binnen(b); { stel c = 99; a += c }; [a, b, r]",
+                "stel x = 1; stel y = x + 1; stel x = y * 10; { stel y = x + 5; print(y) }; stel z = x + y; [x, y, z]",
+                "stel a = 1; zolang a < 3 { stel b = a; als b == 1 { stel c = 7; a += c - 6 } anders { stel d = 9; a += d }; stel e = b; print(e) }; a",
+            ];
+            for (k, b) in bodies.iter().enumerate() {
+                // at top level (globals) ...
+                v.push((format!("top-{k}"), format!("stel p = 1; {b}")));
+                v.push((format!("top0-{k}"), format!("stel p = 0; {b}")));
+                // ... and as a function body (locals), called twice and from inside another function's locals
+                v.push((format!("fn-{k}"), format!("functie f(p) {{ {b} }}; print(f(1)); f(0)")));
+                v.push((format!("fnfn-{k}"), format!("functie f(p) {{ {b} }}; functie h(u, v) {{ stel w = u + v; stel r1 = f(u); stel z = w * 2; [r1, w, z, u, v] }}; h(1, 0)")));
+            }
+        }
         _ => {}
     }
     v
